@@ -61,6 +61,11 @@ Step(e) ==
       [] e.ev = "none" ->
             IF cur <= cfg.att THEN Flag("schedule_ends_early")
             ELSE NextNone /\ UNCHANGED <<skip, run, nviol, big, powL>>
+      \* Iterator::size_hint: the bounds announced must enclose what the schedule still holds
+      [] e.ev = "hint" ->
+            LET left == IF cur > cfg.att THEN 0 ELSE cfg.att - cur + 1 IN
+            IF e.lo <= left /\ (~e.bounded \/ left <= e.hi) THEN Stutter
+            ELSE Flag("size_hint_contradicts_schedule")
       [] e.ev = "panic" -> Flag("panic")
       [] e.ev = "end" -> IF cur = cfg.att + 1 THEN Stutter ELSE Flag("wrong_number_of_items")
       [] OTHER -> Stutter
